@@ -11,6 +11,15 @@
 //	Compact()               layout with single spaces, LF, no comments (canonical)
 //	RandomLayout(r)         random layout: LF/CR/CRLF mixes, indentation, commas, comments
 //	                        (ASCII or multi-byte), BOM at start, blank lines
+//
+// Additions (same package, purely additive):
+//
+//	RenderInfo(doc, lay)    Render + Info{NameAfterMultiByteIgnored (the D6 input class), Tokens}
+//	BlockRepresentable(v)   can a block string have exactly the value v?
+//	BlockStringValue(raw)   the specification's BlockStringValue algorithm (written from the spec text)
+//
+// Bodies: gen.go (generator), render.go (renderer, span conventions in the
+// comment of Render), strings.go (string and block-string spelling).
 package gramdoc
 
 import (
@@ -42,7 +51,7 @@ type Layout struct {
 	R            *core.RNG
 }
 
-// The functions below are the contract; see gen.go / render.go for the bodies.
+// The functions below are the contract; see gen.go / render.go / strings.go for the bodies.
 var (
 	_ func(r *core.RNG, opts Options) *nast.Document       = Gen
 	_ func(r *core.RNG, depth int, isConst bool) nast.Node = GenValue
